@@ -475,11 +475,21 @@ package hclwrite
 //@ ensures 0 <= ret && ret <= len(toks)
 //@ loop 1 invariant i < len(toks)
 
+// (round 6) The tokens after a body item, up to the end of its line: any number of comments that do
+// not end the line, then a newline, the end of the file, or a comment that ends the line (trailOK:
+// k is the position of that terminator, or len(toks) when the tokens run out). That is what the
+// native parser leaves after an item of an error-free body; under it the function does not panic,
+// however many comments there are, and returns exactly the position of the terminator: the
+// comments before it are the item's line comments, the terminator (if it is a newline) its line end.
+// verif:pred endsNL(t hclsyntax.Token) = len(t.Bytes) > 0 && t.Bytes[len(t.Bytes) - 1] == 10
+// verif:pred trailOK(toks hclsyntax.Tokens, k int) = 0 <= k && k <= len(toks) && (forall j int :: { toks[j] } 0 <= j && j < k ==> toks[j].Type == hclsyntax.TokenComment && !endsNL(toks[j])) && (k == len(toks) || toks[k].Type == hclsyntax.TokenNewline || toks[k].Type == hclsyntax.TokenEOF || (toks[k].Type == hclsyntax.TokenComment && endsNL(toks[k])))
 // verif:func partitionLineEndTokens
-//@ maypanic
+//@ requires trail: exists k int :: trailOK(toks, k)
 //@ pure
 //@ ensures 0 <= afterComment && afterComment <= afterNewline && afterNewline <= len(toks)
+//@ ensures where: forall k int :: trailOK(toks, k) ==> (k == len(toks) ==> afterComment == k && afterNewline == k) && (k < len(toks) && toks[k].Type == hclsyntax.TokenNewline ==> afterComment == k && afterNewline == k + 1) && (k < len(toks) && toks[k].Type == hclsyntax.TokenEOF ==> afterComment == k && afterNewline == k) && (k < len(toks) && toks[k].Type == hclsyntax.TokenComment ==> afterComment == k + 1 && afterNewline == k + 1)
 //@ loop 1 invariant 0 <= i && i <= len(toks)
+//@ loop 1 invariant forall j int :: { toks[j] } 0 <= j && j < i ==> toks[j].Type == hclsyntax.TokenComment && !endsNL(toks[j])
 
 // verif:func (inputTokens).Slice
 //@ requires paired(it) && 0 <= start && start <= end && end <= len(it.nativeTokens)
@@ -525,7 +535,10 @@ package hclwrite
 //@ pure
 //@ ensures piece(before, it, 0, len(before.nativeTokens)) && piece(within, it, len(before.nativeTokens), len(within.nativeTokens)) && len(before.nativeTokens) + len(within.nativeTokens) == len(it.nativeTokens)
 
+// (the precondition of partitionLineEndTokens - what follows a body item is a well-formed line trailer - is
+// a fact about the native parser's output and is assumed here, listed in the evidence)
 // verif:func (inputTokens).PartitionLineEndTokens
+//@ assumepre partitionLineEndTokens
 //@ requires paired(it)
 //@ ensures pairedOut: paired(comments) && paired(newline) && paired(after)
 //@ maypanic
@@ -533,6 +546,7 @@ package hclwrite
 //@ ensures tiles3(it, comments, newline, after)
 
 // verif:func (inputTokens).PartitionIncludingComments
+//@ assumepre partitionLineEndTokens
 //@ requires paired(it)
 //@ ensures pairedOut: paired(before) && paired(within) && paired(after)
 //@ maypanic
